@@ -143,7 +143,7 @@ def run(ctx):
     pool = ThreadPoolExecutor(max_workers=1)
     laws_future = pool.submit(laws)
     # 2. histories from the specification
-    nsim = 1600 if quick else 40000
+    nsim = 1600 if quick else 20000
     scripts = generate(ctx, nsim)
     if len(scripts) < nsim // 2:
         raise vlib.Inconclusive("history generation produced only %d scripts" % len(scripts))
